@@ -14,3 +14,6 @@ def run(ctx):
     echcommon.run_family(ctx, ["MCEchHello_c03.cfg"], mode="bits", select=lambda c: c["res"]["kind"] == "accept", sample=n, what="C02 bit-flip")
     # a payload sealed - correctly - with a suite the held config does not list must not be accepted either
     echcommon.run_family(ctx, ["MCEchHello_c09q.cfg"], select=lambda c: c["op"] == "unlistedSuite", sample=300 if ctx.quick else None, what="C02 unlisted suite")
+    # the same substitutions on the retried hello (state kept from the first record): another config id, another listed
+    # suite, a new enc, an undecryptable payload - every history of EchConn.tla that contains one of them
+    echcommon.echconn_slice(ctx, lambda c: any(s in ("CH2cid", "CH2suite", "CH2enc", "CH2undec") for d, s in c["hist"]), label="retry substitution")
